@@ -54,15 +54,16 @@ class MellinBarnes(object):
 
     def _j2x_mellin_barnes_integral(self, x, eta, wce, gpd):
         """Return convolution of j->x coef, evolution operator and GPD."""
-        # difference wrt above integrations is that here we do NOT sum over flavors
+        # difference wrt above integrations is that here we do NOT sum over evolved
+        # flavors f, only over the input flavors a that evolve into them
         eph = np.exp(self.phi*1j)
         cfacj = eph * np.exp((self.jpoints + 1) * log(1/x))  # eph/x**(j+1)
         if eta < 1e-8:
             # forward limit, PDF-like, so only zero-th PW is taken
-            cch = np.einsum('j,ja,ja->ja', cfacj, wce[0, :, :], gpd)
+            cch = np.einsum('j,jfa,ja->jf', cfacj, wce[0, :, :, :], gpd)
         elif abs(eta-x) < 1e-8:
             # cross-over, border eta=x limit
-            cch = np.einsum('j,sa,sja,ja->ja', cfacj,
+            cch = np.einsum('j,sa,sjfa,ja->jf', cfacj,
                             self.pw_strengths(), wce, gpd)
         else:
             raise Exception('eta has to be either 0 or equal to x')
@@ -71,15 +72,16 @@ class MellinBarnes(object):
 
     def _j2x_mellin_barnes_integral_E(self, x, eta, wce, gpd):
         """Return convolution of j->x coef, evolution operator and GPD E."""
-        # difference wrt above integrations is that here we do NOT sum over flavors
+        # difference wrt above integrations is that here we do NOT sum over evolved
+        # flavors f, only over the input flavors a that evolve into them
         eph = np.exp(self.phi*1j)
         cfacj = eph * np.exp((self.jpoints + 1) * log(1/x))  # eph/x**(j+1)
         if eta < 1e-8:
             # forward limit, PDF-like, so only zero-th PW is taken
-            cch = np.einsum('j,ja,ja->ja', cfacj, wce[0, :, :], gpd)
+            cch = np.einsum('j,jfa,ja->jf', cfacj, wce[0, :, :, :], gpd)
         elif abs(eta-x) < 1e-8:
             # cross-over, border eta=x limit
-            cch = np.einsum('j,sa,sja,ja->ja', cfacj,
+            cch = np.einsum('j,sa,sjfa,ja->jf', cfacj,
                             self.pw_strengths_E(), wce, gpd)
         else:
             raise Exception('eta has to be either 0 or equal to x')
